@@ -587,6 +587,10 @@ def precise_fault(o, ev):
     if "rep" in o or "exitop" in o or "pair" in o:
         return o
     f = ev.get("fault", "")
+    m = re.match(r"^alloc2:(\d+):(\d+)$", f)
+    if m:
+        o["fault"], o["fa"], o["fb"] = "alloc2", int(m.group(1)), int(m.group(2))
+        return o
     m = re.match(r"^(alloc|allocfrom):(\d+)$", f)
     if m:
         o["fault"], o["fa"], o["fb"] = m.group(1), int(m.group(2)), 0
@@ -778,6 +782,9 @@ def main(tier, seed):
                     distinct.add((o["name"], "alloc", k))
                     if k + 1 < n:
                         distinct.add((o["name"], "allocfrom", k))
+                    if 2 <= n <= 12:
+                        for k2 in range(k + 1, n):
+                            distinct.add((o["name"], "alloc2", k, k2))
             elif o["fault"] in ("alloc", "allocfrom") and n > 0:
                 distinct.add((o["name"], o["fault"], o["fa"] % n))
             elif o["fault"] == "cold" and r["fired"] > 0:
